@@ -229,3 +229,31 @@ func CanonPDescN(d *ring.PartitionRingDesc) string {
 	sort.Strings(xs)
 	return strings.Join(xs, " ")
 }
+
+// StripDesc returns a copy of d without its removal markers (written out by hand: the oracles must not ask
+// the library what a reader may see).
+func StripDesc(d *ring.Desc) *ring.Desc {
+	c := CloneDesc(d)
+	for id, in := range c.Ingesters {
+		if in.State == ring.LEFT {
+			delete(c.Ingesters, id)
+		}
+	}
+	return c
+}
+
+// StripPDesc is StripDesc for partition rings: deleted partitions and deleted owners go, nothing else.
+func StripPDesc(p *ring.PartitionRingDesc) *ring.PartitionRingDesc {
+	c := ClonePDesc(p)
+	for id, pd := range c.Partitions {
+		if pd.State == ring.PartitionDeleted {
+			delete(c.Partitions, id)
+		}
+	}
+	for id, o := range c.Owners {
+		if o.State == ring.OwnerDeleted {
+			delete(c.Owners, id)
+		}
+	}
+	return c
+}
